@@ -283,6 +283,15 @@ func (p *Policy) AddToSuspiciousPeerList(pubkey string) error {
 }
 
 func addLineToFile(filePath, line string) error {
+	// Make sure that the new line does not get glued to a last line that has
+	// no trailing newline.
+	content, err := os.ReadFile(filePath)
+	if err != nil {
+		return err
+	}
+	if len(content) > 0 && content[len(content)-1] != '\n' {
+		line = "\n" + line
+	}
 	file, err := os.OpenFile(filePath, os.O_APPEND|os.O_WRONLY, 0660)
 	if err != nil {
 		return err
